@@ -604,3 +604,43 @@ func (c *Ctx) getterCallers(m *types.Func, pkg string) map[*ssa.Function][]*ssa.
 	}
 	return out
 }
+
+// stringConstsOf: the constant strings v can take: a constant, or an element of a slice/array
+// literal of constants that is ranged over (`for _, p := range []string{...}`).
+func stringConstsOf(v ssa.Value) []string {
+	v = core.Strip(v)
+	if k, ok := v.(*ssa.Const); ok && k.Value != nil && k.Value.Kind() == constant.String {
+		return []string{constant.StringVal(k.Value)}
+	}
+	ld, ok := v.(*ssa.UnOp)
+	if !ok || ld.Op != token.MUL {
+		return nil
+	}
+	ia, ok := ld.X.(*ssa.IndexAddr)
+	if !ok {
+		return nil
+	}
+	base := ia.X
+	if sl, ok := base.(*ssa.Slice); ok {
+		base = sl.X
+	}
+	al, ok := base.(*ssa.Alloc)
+	if !ok || al.Referrers() == nil {
+		return nil
+	}
+	var out []string
+	for _, ref := range *al.Referrers() {
+		ea, ok := ref.(*ssa.IndexAddr)
+		if !ok || ea.Referrers() == nil {
+			continue
+		}
+		for _, r2 := range *ea.Referrers() {
+			if st, ok := r2.(*ssa.Store); ok && st.Addr == ssa.Value(ea) {
+				if k, ok := st.Val.(*ssa.Const); ok && k.Value != nil && k.Value.Kind() == constant.String {
+					out = append(out, constant.StringVal(k.Value))
+				}
+			}
+		}
+	}
+	return out
+}
